@@ -82,6 +82,18 @@ func vtC13QtyString(mant, code int64) string {
 			p *= 10
 		}
 		return fmt.Sprintf("%d.%0*d", mant/p, digits, mant%p)
+	case code == 14: // exponent notation
+		return strconv.FormatInt(mant, 10) + "e-3"
+	case code == 15:
+		return strconv.FormatInt(mant, 10) + "e3"
+	case code == 16:
+		return strconv.FormatInt(mant, 10) + "Ti"
+	case code == 17:
+		return strconv.FormatInt(mant, 10) + "Pi"
+	case code == 18: // explicit sign
+		return "+" + strconv.FormatInt(mant, 10)
+	case code == 19:
+		return strconv.FormatInt(mant, 10) + "E-6"
 	}
 	return strconv.FormatInt(mant, 10)
 }
@@ -108,6 +120,14 @@ func vtC13ResName(id int64) corev1.ResourceName {
 		return corev1.ResourceName("verif.io/other")
 	}
 	return corev1.ResourceName(fmt.Sprintf("verif.io/r%d", id))
+}
+
+// vtC13AnnKey: 0 = the summary annotation, >= 1 any other key.
+func vtC13AnnKey(id int64) string {
+	if id == 0 {
+		return extension.AnnotationExtendedResourceSpec
+	}
+	return fmt.Sprintf("verif/a%d", id)
 }
 
 func vtC13LabelKey(id int64) string {
@@ -186,9 +206,34 @@ func (d *vtC13Dec) pod() *corev1.Pod {
 	pod.Spec.InitContainers = d.containers("i")
 	pod.Spec.Containers = d.containers("c")
 	pod.Spec.Overhead = d.resList()
+	if d.next() != 0 { // spec.resources (pod-level resources), possibly empty
+		pod.Spec.Resources = &corev1.ResourceRequirements{}
+		pod.Spec.Resources.Requests = d.resList()
+		pod.Spec.Resources.Limits = d.resList()
+	}
+	anns := map[string]string{}
+	if v, ok := d.annValue(); ok {
+		anns[extension.AnnotationExtendedResourceSpec] = v
+	}
+	for i, n := 0, d.count(); i < n; i++ {
+		k := d.next()
+		v, ok := d.annValue()
+		if ok && k != 0 { // the summary key is carried by the field before
+			anns[vtC13AnnKey(k)] = v
+		}
+	}
+	if len(anns) > 0 {
+		pod.Annotations = anns
+	}
+	return vtC13RoundTrip(pod)
+}
+
+// annValue decodes one annotation value: [0] absent, [1] a string that is no JSON,
+// [2 n entries] the JSON of an extended-resource-spec.
+func (d *vtC13Dec) annValue() (string, bool) {
 	switch d.next() {
 	case 1:
-		pod.Annotations = map[string]string{extension.AnnotationExtendedResourceSpec: "{not json"}
+		return "{not json", true
 	case 2:
 		n := d.count()
 		spec := &extension.ExtendedResourceSpec{Containers: map[string]extension.ExtendedResourceContainerSpec{}}
@@ -217,9 +262,9 @@ func (d *vtC13Dec) pod() *corev1.Pod {
 		if err != nil {
 			panic(err)
 		}
-		pod.Annotations = map[string]string{extension.AnnotationExtendedResourceSpec: string(data)}
+		return string(data), true
 	}
-	return vtC13RoundTrip(pod)
+	return "", false
 }
 
 func vtC13RoundTrip(pod *corev1.Pod) *corev1.Pod {
@@ -289,6 +334,15 @@ func vtC13EncPod(pod *corev1.Pod) []int64 {
 	out = append(out, vtC13EncContainers(pod.Spec.InitContainers)...)
 	out = append(out, vtC13EncContainers(pod.Spec.Containers)...)
 	out = append(out, vtC13EncResList(pod.Spec.Overhead)...)
+	if pod.Spec.Resources != nil {
+		out = append(out, 1)
+		out = append(out, vtC13EncResList(pod.Spec.Resources.Requests)...)
+		out = append(out, vtC13EncResList(pod.Spec.Resources.Limits)...)
+	} else {
+		out = append(out, 0)
+		out = append(out, vtC13EncResList(nil)...)
+		out = append(out, vtC13EncResList(nil)...)
+	}
 	if _, ok := pod.Annotations[extension.AnnotationExtendedResourceSpec]; !ok {
 		return append(out, 0)
 	}
@@ -388,6 +442,14 @@ func vtC13GenQty(r vtC13Rand, cpuLike bool, whole bool) (int64, int64) {
 		case 8:
 			return int64(r.Intn(2000000000)), 13
 		}
+		switch r.Intn(4) { // unusual but legal spellings
+		case 0:
+			return int64(r.Intn(64000)), 14
+		case 1:
+			return int64(r.Intn(5000000)), 19
+		case 2:
+			return int64(r.Intn(16)), 18
+		}
 		return int64(r.Intn(4)), 4
 	}
 	switch r.Intn(10) {
@@ -409,6 +471,16 @@ func vtC13GenQty(r vtC13Rand, cpuLike bool, whole bool) (int64, int64) {
 		return int64(r.Intn(5000)), 2 // fractional bytes
 	case 8:
 		return int64(r.Intn(100000)), 11
+	}
+	switch r.Intn(5) { // unusual but legal spellings and large binary suffixes
+	case 0:
+		return int64(r.Intn(1000000)), 15
+	case 1:
+		return int64(1 + r.Intn(64)), 16
+	case 2:
+		return int64(1 + r.Intn(8)), 17
+	case 3:
+		return int64(r.Intn(1 << 30)), 18
 	}
 	return int64(r.Intn(1000)), 4
 }
@@ -497,6 +569,33 @@ func vtC13GenContainers(r vtC13Rand, n int, shape int, allowSidecar bool) []int6
 	return out
 }
 
+// vtC13GenAnnValue emits an annotation value: absent unless a draw from [0,scale) is below 6
+// (0: no JSON, 1..5: a spec).
+func vtC13GenAnnValue(r vtC13Rand, scale int) []int64 {
+	var out []int64
+	switch r.Intn(scale) {
+	case 0:
+		out = append(out, 1)
+	case 1, 2, 3, 4, 5:
+		n := r.Intn(3)
+		out = append(out, 2, int64(n))
+		for i := 0; i < n; i++ {
+			out = append(out, int64(r.Intn(4)))
+			for j := 0; j < 4; j++ {
+				if r.Intn(2) == 0 {
+					m, c := vtC13GenQty(r, j%2 == 0, false)
+					out = append(out, 1, m, c)
+				} else {
+					out = append(out, 0, 0, 0)
+				}
+			}
+		}
+	default:
+		out = append(out, 0)
+	}
+	return out
+}
+
 // vtC13GenPod emits a wire pod. shape as in vtC13GenResList; qos/class are label values
 // ("-" = no label).
 func vtC13GenPod(r vtC13Rand, shape int, qos, class string, prioPresent bool, prio int64) []int64 {
@@ -550,24 +649,27 @@ func vtC13GenPod(r vtC13Rand, shape int, qos, class string, prioPresent bool, pr
 	} else {
 		out = append(out, 0)
 	}
-	switch r.Intn(30) {
+	// spec.resources (pod-level resources): rare; sometimes empty, sometimes with whole CPUs
+	switch r.Intn(24) {
 	case 0:
+		out = append(out, 1, 0, 0)
+	case 1:
 		out = append(out, 1)
-	case 1, 2, 3, 4, 5:
-		n := r.Intn(3)
-		out = append(out, 2, int64(n))
-		for i := 0; i < n; i++ {
-			out = append(out, int64(r.Intn(4)))
-			for j := 0; j < 4; j++ {
-				if r.Intn(2) == 0 {
-					m, c := vtC13GenQty(r, j%2 == 0, false)
-					out = append(out, 1, m, c)
-				} else {
-					out = append(out, 0, 0, 0)
-				}
-			}
-		}
+		out = append(out, vtC13GenResList(r, []int{0, 4, 3}[r.Intn(3)], false)...)
+		out = append(out, 0)
+	case 2:
+		out = append(out, 1)
+		out = append(out, vtC13GenResList(r, []int{0, 4}[r.Intn(2)], false)...)
+		out = append(out, vtC13GenResList(r, 0, true)...)
 	default:
+		out = append(out, 0)
+	}
+	out = append(out, vtC13GenAnnValue(r, 30)...)
+	// other annotations
+	if r.Intn(12) == 0 {
+		out = append(out, 1, int64(5+r.Intn(2)))
+		out = append(out, vtC13GenAnnValue(r, 3)...)
+	} else {
 		out = append(out, 0)
 	}
 	return out
